@@ -31,7 +31,7 @@ func genAuth(g *genCtx) {
 	}
 	nr := 120
 	if g.thorough() {
-		nr = 3000
+		nr = 30000
 	}
 	tss := []int{0, 1, 59, 1000000, 101000000, 229235959, 1231235959, 999999999, 1000000000}
 	for _, proto := range []string{"cmpp20", "cmpp30", "smgp30"} {
